@@ -99,7 +99,7 @@ def resonant_circuit(rng):
 
 def run(ctx):
     rng = ctx.subrng("c01")
-    n = ctx.budget(300, 5000)
+    n = ctx.budget(500, 5000)
     nmax = 6 if ctx.tier == "quick" else 10
     kinds = ["general", "general", "symmetric", "reflectionless", "sparse"]
     for i in range(n):
